@@ -412,7 +412,13 @@ func (c *FCGIClient) Do(p map[string]string, req io.Reader) (r io.Reader, err er
 
 	body := newWriter(c, Stdin)
 	if req != nil {
-		_, _ = io.Copy(body, req)
+		if _, err = io.Copy(body, req); err != nil {
+			// The request body could not be read to its end (it is larger
+			// than allowed, or the client went away). The stdin stream is
+			// left unterminated: with the empty record that ends it the
+			// responder would take what arrived so far for the whole body.
+			return nil, err
+		}
 	}
 	body.Close()
 
